@@ -259,6 +259,30 @@ def run(tier, report):
                 report.violation("c12", {"long_cell": length, "cfg": list(fmt_args)}, None, None,
                                  "item delimiter %r, quote %r, escape %r: a table with a cell of %d characters is read back as %s" % (
                                      fmt_args[0], fmt_args[1], fmt_args[2], length, str(back[1])[:120]))
+    # two readers at once (a short file compared with a long one, row by row): the one that was started first ends first,
+    # the other one goes on and still meets a long cell
+    data_format, _ = make_format(",", '"', '"', False)
+    long_table = [["b", "c"], ["a", "x" * 200000], ["d", "e" * 140000]]
+    long_text, _ = round_trip(data_format, long_table)
+    report.replayed += 1
+    try:
+        from cutplace import rowio
+        short_reader = rowio.delimited_rows(io.StringIO("p,q\r\nr,s\r\n", newline=""), data_format)
+        first_short = next(short_reader)
+        long_reader = rowio.delimited_rows(io.StringIO(long_text, newline=""), data_format)
+        got = [next(long_reader)]
+        rest_short = list(short_reader)       # (ends here)
+        del short_reader
+        got += list(long_reader)
+        if got != long_table or [first_short] + rest_short != [["p", "q"], ["r", "s"]]:
+            got = "rows of %s cells with lengths %s" % ([len(row) for row in got], [[len(cell) for cell in row] for row in got])
+        else:
+            got = None
+    except Exception as error:  # noqa
+        got = "%s: %s" % (type(error).__name__, str(error)[:150])
+    if got is not None:
+        report.violation("c12", {"two_readers": True}, None, got,
+                         "a table with cells of 200000 and 140000 characters, read while an earlier reader of another table ends: %s" % got)
     # through files: the writer encodes, the reader decodes -- with the encoding the CID names, for tables whose first
     # characters are ones that text tools like to treat specially (a zero width no-break space is data like any other)
     folder = core.workdir("c12files")
